@@ -103,9 +103,43 @@ def _steps(fn):
     return steps
 
 
+def _handle_table(repo):
+    """The handle table as coq/Model/C31.v models it: per-instance counter and dicts created in
+    __init__, a new handle named after the counter, which is then incremented."""
+    tree = ast.parse(open(os.path.join(repo, "paramiko", "sftp_server.py")).read())
+    cls = [n for n in ast.walk(tree) if isinstance(n, ast.ClassDef) and n.name == "SFTPServer"]
+    if len(cls) != 1:
+        raise RuntimeError("class SFTPServer not found")
+    cls = cls[0]
+    for st in cls.body:     # no class-level (shared) handle state
+        names = []
+        if isinstance(st, ast.Assign):
+            names = [t.id for t in st.targets if isinstance(t, ast.Name)]
+        elif isinstance(st, ast.AnnAssign) and isinstance(st.target, ast.Name):
+            names = [st.target.id]
+        for nm in names:
+            if nm in ("next_handle", "file_table", "folder_table"):
+                raise RuntimeError("SFTPServer.%s is a class attribute (shared by all sessions)" % nm)
+    fns = {f.name: f for f in cls.body if isinstance(f, ast.FunctionDef)}
+    init = [ast.unparse(st) for st in ast.walk(fns["__init__"]) if isinstance(st, ast.Assign)]
+    for want in ("self.next_handle = 1", "self.file_table = {}", "self.folder_table = {}"):
+        if want not in init:
+            raise RuntimeError("SFTPServer.__init__ no longer contains `%s`" % want)
+    body = [ast.unparse(st) for st in fns["_send_handle_response"].body]
+    want = ["handle._set_name(b('hx{:d}'.format(self.next_handle)))", "self.next_handle += 1"]
+    idx = [body.index(w) if w in body else -1 for w in want]
+    if idx[0] < 0 or idx[1] != idx[0] + 1:
+        raise RuntimeError("handle naming in _send_handle_response changed: %r" % body[1:4])
+    uses = [ast.unparse(n) for f in fns.values() for n in ast.walk(f)
+            if isinstance(n, (ast.Assign, ast.AugAssign)) and "next_handle" in ast.unparse(n)]
+    if sorted(uses) != sorted(["self.next_handle = 1", "self.next_handle += 1"]):
+        raise RuntimeError("next_handle is assigned elsewhere: %r" % uses)
+
+
 def generate(repo):
     flags = _flags(repo)
     steps = _steps(_find(repo))
+    _handle_table(repo)
     lines = ["(* GENERATED by gen/c31.py from paramiko/sftp_attr.py and paramiko/sftp_server.py - do not edit *)",
              "From Coq Require Import ZArith List.", "Import ListNotations.", "Open Scope Z_scope.", ""]
     for name in FLAGS:
